@@ -1658,3 +1658,21 @@ def branch_on_condition(trees):
             fn.body = _map_blocks(fn.body, f)
         ast.fix_missing_locations(tree)
     return n
+
+
+# --------------------------------------------------------------------------------------------- pipeline
+def sugar_passes(trees):
+    """the rewrites applied to every tree (reference and analysed alike)"""
+    desugar_walrus(trees)
+    split_chained_assignments(trees)
+    split_parallel_assignments(trees)
+    branch_on_condition(trees)
+    desugar_conditional_expressions(trees)
+    desugar_quantifiers(trees)
+    desugar_boolean_returns(trees)
+
+
+def shape_passes(trees):
+    n = comprehension_form(trees)
+    extend_form(trees)
+    return n
